@@ -11,7 +11,8 @@ from . import cache_common as cc
 from . import c06s
 
 PROOFS = ["proofs/CacheLiveStepsProofs.v", "models/CacheLiveSteps.v", "models/CacheSteps.v",
-          "proofs/CacheLiveProofs.v", "models/CacheLive.v", "models/Cache.v", "models/CacheOptions.v"]
+          "proofs/CacheLiveProofs.v", "models/CacheLive.v", "models/Cache.v", "models/CacheOptions.v",
+          "models/CacheDrop.v", "proofs/CacheDropProofs.v"]
 
 TRUSTED = [
     "faketime runtime mode and harness/cmd/ftcache (timed script runner, log, virtual-time watchdog)",
@@ -95,6 +96,27 @@ def add_gc(rng, sc, n=None):
     for t in cands[:n or rng.range(1, 3)]:
         sc.add(cc.free_instant(used, max(0, t)), "C", 0)
     return sc
+
+
+def drop_scripts(rng, n, trials):
+    """The caller drops its last reference to the cache right after a burst of Loads and keeps only the Futures (some
+    Loads may still be waiting for room in the job queue, jobs are queued, loaders are running); then the collector runs
+    (the finalizer stops the ticker and closes the cache). Loaders all return, so every Load call must still return
+    and every Future handed out must still resolve. Monitors only: the Cache.v / CacheLiveSteps.v machines have no
+    'cache dropped' event."""
+    out = []
+    for i in range(n):
+        sc = burst_script(rng, par=rng.choice([1, 1, 2]), jcs=rng.choice([1, 1, 2, 4]), extra=rng.range(1, 4), trials=trials)
+        n = len(sc.keys)
+        waits = [a for a in sc.acts[n:] if a[1] in ("W", "w")]
+        sc.acts = sc.acts[:n]            # the burst: Load of key i is action i
+        last = max(a[0] for a in sc.acts)
+        # nothing of the script touches the cache after the drop: only waits on the Futures of the burst follow
+        for j, a in enumerate(waits):
+            sc.add(cc.free_instant(sc.used_instants(), last + 48 + 16 * j), a[1], a[2])
+        sc.add(cc.free_instant(sc.used_instants(), last + rng.choice([4, 4, 20, sc.ne // 2 - (sc.ne // 2) % 16 + 4])), "D", 0)
+        out.append(sc)
+    return out
 
 
 def gc_scripts(rng, n, trials):
@@ -188,6 +210,22 @@ def run(chk):
                 small_scripts.append(sc)
             streams.append(("small-bursts", small_scripts))
             streams.append(("gc-while-in-use", gc_scripts(chk.rng, 30 if quick else 300, trials=4 if quick else 10)))
+            # the caller keeps only the Futures (monitors only: no model event for a dropped cache)
+            drops = [cc.parse_line(l[5:]) for l in corpus_lines if l.startswith("drop ftc")]
+            drops += drop_scripts(chk.rng, 24 if quick else 300, trials=4 if quick else 10)
+            for sc in drops:
+                chk.count_case("drop-cache-outstanding-futures", sc.line(), True)
+            # liveness only: after the drop a Load that finds the cache closed runs its loader itself, so the
+            # parallelism / queue-size monitors of the other streams do not apply
+            for sc, whole in zip(drops, cc.run_ft(binary, [sc.line() for sc in drops])):
+                if whole.startswith("PANIC"):
+                    chk.monitor_fail("panic", sc.line(), whole[:500], whole[:300])
+                    continue
+                for log in cc.split_trials(whole):
+                    mf = cc.monitor_liveness(sc, log)
+                    if mf:
+                        chk.monitor_fail("future-unresolved-after-cache-dropped" if mf[0] == "hang" else mf[0], sc.line(), log.text[:3000],
+                                         "the script drops its last reference to the cache after a burst of Loads and keeps the Futures: " + mf[1])
             allres = []
             for name, scripts in streams:
                 res = cc.check_batch(chk, binary, name, scripts, monitor_c06, feed_sweeps=lambda si, ti: ti % 2 == 1,
